@@ -144,6 +144,7 @@ def Sys.step (s : Sys) (op : Op) : Sys × Obs :=
   | .endR => if s.reader then ({ s with reader := false }, .ok) else (s, .badop)
   | .reopen => if s.pending.isSome || s.reader then (s, .badop) else (s, .ok)
   | .probe => (s, if s.pending.isSome then .blocked else .acquired)
+  | .raw => (s, .unspecified)
   | op =>
     match slotOf op with
     | none => (s, .badop)
